@@ -63,13 +63,16 @@ def seq_families(tier):
     comps["combine_fromiter"] = [{"id": 1, "kind": "from_iter", "items": [1]}, P(2, 1),
                                  {"id": 3, "kind": "combine", "ups": [1, 2]}]
     comps["merge_fromiter"] = [{"id": 1, "kind": "from_iter", "items": [1]}, P(2, 1), {"id": 3, "kind": "merge", "ups": [1, 2]}]
-    # (not: share reached twice inside one composition, e.g. concat!(take(1)(shared), shared) -- the second
-    # subscription then attaches re-entrantly while share is still fanning out the end of the first run, which
-    # is the nested fan-out situation the properties exclude for share (finding F2); see DESIGN §14)
+    # share reached twice inside one composition: concat!(take(1)(shared), shared).  When the shared source ends
+    # by itself the second subscription attaches re-entrantly while share is still fanning out that end (the
+    # nested situation of finding F2, see F2-reentrant-attach); exhaustive bounds only, no random runs
+    comps["concat_take_share"] = [P(1, 1), {"id": 2, "kind": "share", "ups": [1]}, {"id": 3, "kind": "take", "n": 1, "ups": [2]},
+                                  {"id": 4, "kind": "concat", "ups": [3, 2]}]
     for nm, nodes in comps.items():
         big = len([n for n in nodes if n["kind"] == "puppet"]) > 1
         F["compo_" + nm] = (scen.with_bounds({"nodes": nodes, "root": len(nodes)}, nodes[-1]["kind"],
                                              maxData=1 if big else 2, maxTop=3 if (q or big) else 4, maxPull=1, allowFail=True),
+                            None if nm == "concat_take_share" else
                             scen.with_bounds({"nodes": nodes, "root": len(nodes)}, nodes[-1]["kind"],
                                              maxData=3, maxTop=6, maxPull=3, allowFail=True, sinkErr=True))
     # two subscriptions of the same output (the properties are stated per subscription)
